@@ -15,7 +15,7 @@ impl Prop for C05 {
         600
     }
     fn cases(&self, tier: Tier) -> u32 {
-        tier.pick(30_000, 600_000)
+        tier.pick(150_000, 2_500_000)
     }
     fn decode(&self, choices: &[u32], tier: Tier) -> Value {
         serde_json::to_value(decode_rcase(choices, tier, 8, 12, 4)).unwrap()
